@@ -40,7 +40,9 @@ func c10Alphabet(tier string) []*explore.Action {
 		scen.SendN(scen.B, scen.C, scen.SC(scen.B1, "1.5", "0.25"), scen.SC(scen.B2, "1", "0")),
 		scen.Msg("BuyDirect(D,order1,0.5,max-fee=5)", buyOK),
 		scen.Put(scen.B, scen.KYR, scen.BC(scen.B1, "1"), scen.BC(scen.B2, "0.5")), // b2 starts exactly on the basket's year boundary
-		scen.Sell(scen.B, scen.B1, "0.5", sdk.NewInt64Coin("uregen", 5), true, &e10),
+		// one message, three markets, two of which do not exist yet (stake, uusd): the ids they get are consensus state
+		scen.SellN(scen.B, "existing-market+two-new-markets", scen.SO(scen.B1, "0.5", sdk.NewInt64Coin("uregen", 5), true, &e10),
+			scen.SO(scen.B1, "0.25", sdk.NewInt64Coin("stake", 4), true, nil), scen.SO(scen.B2, "0.25", sdk.NewInt64Coin("uusd", 6), true, nil)),
 		buy,
 		scen.Msg("basket.Create(A,[C01,C02,C09,C08])!", &baskettypes.MsgCreate{Curator: scen.A.String(), Name: "MULTI", DisableAutoRetire: true, CreditTypeAbbrev: "C",
 			AllowedClasses: []string{"C01", "C02", "C09", "C08"}, Fee: sdk.NewCoins(sdk.NewInt64Coin("uregen", 10))}),
